@@ -131,7 +131,7 @@ type modelOpts struct {
 	noClient    bool
 }
 
-var defaultPatterns = []string{"||example.org^", "||google.com^", "|https://a.com/", "example", "/ads/", "a.com|", "://1.2.",
+var defaultPatterns = []string{"||example.org^", "||google.com^", "|https://a.com/", "example", "/ads/x", "a.com|", "://1.2.",
 	"||1.2.3.4^", "google", "ab", "*", "||", "||sub.example.org^", "|http://", "example.org/ads/*", "^ads^", "||example.org^*x", "GOOGLE"}
 
 func genNetModel(t *rapid.T, o modelOpts) NetModel {
@@ -731,4 +731,210 @@ func netTexts(rs []*rules.NetworkRule) []string {
 		out = append(out, r.Text())
 	}
 	return out
+}
+
+// ---------------------------------------------------------------------------
+// requests built from the rule: satisfy every modifier, then break 0..2 of them
+
+var candHosts = []string{"example.org", "www.example.org", "google.com", "a.com", "1.2.3.4", "1.2.9.9", "notexample.org",
+	"sub.example.org", "ads.example.com", "google.co.uk", "b.net", "x.a.com", "x.sub.example.org", "ads.net"}
+
+func candidateURLs() []string {
+	var out []string
+	for _, sch := range []string{"http://", "https://", "ws://"} {
+		for _, h := range candHosts {
+			for _, tl := range urlTails {
+				out = append(out, sch+h+tl)
+			}
+		}
+	}
+	return out
+}
+
+var allCandURLs = candidateURLs()
+
+// repairQ changes q field by field so that it satisfies m where that is
+// possible with the vocabulary.
+func repairQ(t *rapid.T, q Q, m NetModel) Q {
+	if len(m.DPerm) > 0 || m.TP == 1 {
+		q.Host = false
+	} else if len(m.QPerm) > 0 {
+		q.Host = true
+	}
+	denyOK := func(h string, hostReq bool) bool {
+		if len(m.Deny) == 0 {
+			return true
+		}
+		if hostReq {
+			if _, err := netip.ParseAddr(h); err == nil {
+				return false
+			}
+		}
+		return !refSubOfAny(h, m.Deny)
+	}
+	mask := parseRefMask(m.Pat)
+	if q.Host {
+		q.URL, q.Src, q.Typ = "", "", ""
+		var ok []string
+		for _, h := range candHosts {
+			hq := Q{Host: true, Hostname: h}
+			if denyOK(h, true) && mask.match(refTarget(m.Pat, hq), m.MC) {
+				ok = append(ok, h)
+			}
+		}
+		if len(ok) > 0 {
+			q.Hostname = pick(t, "rep-host", ok)
+		} else if q.Hostname == "" {
+			q.Hostname = "example.org"
+		}
+		if len(m.QPerm) > 0 {
+			q.DNSType = pick(t, "rep-dnstype", m.QPerm)
+		} else if inList(q.DNSType, m.QRestr) {
+			q.DNSType = ""
+		}
+	} else {
+		q.Hostname, q.DNSType = "", ""
+		var ok []string
+		for _, u := range allCandURLs {
+			if denyOK(refHostOf(u), false) && mask.match(u, m.MC) {
+				ok = append(ok, u)
+			}
+		}
+		if len(ok) > 0 {
+			q.URL = pick(t, "rep-url", ok)
+		} else if q.URL == "" {
+			q.URL = "http://example.org/"
+		}
+		h := refHostOf(q.URL)
+		// source
+		var srcs []string
+		for _, d := range m.DPerm {
+			if strings.HasSuffix(d, ".*") {
+				for _, suf := range wildSuffixes {
+					srcs = append(srcs, d[:len(d)-2]+"."+suf, "www."+d[:len(d)-2]+"."+suf)
+				}
+			} else {
+				srcs = append(srcs, d, "sub."+d)
+			}
+		}
+		if len(m.DPerm) == 0 {
+			srcs = append(srcs, baseDomains...)
+			srcs = append(srcs, h, "www."+h)
+			if m.TP != 1 {
+				srcs = append(srcs, "")
+			}
+		}
+		var okSrc []string
+		for _, s := range srcs {
+			if refSubOfAny(s, m.DRestr) || (len(m.DPerm) > 0 && !refSubOfAny(s, m.DPerm)) {
+				continue
+			}
+			third := s != "" && refRegDomain(s) != refRegDomain(h)
+			if (m.TP == 1 && !third) || (m.TP == 2 && third) {
+				continue
+			}
+			okSrc = append(okSrc, s)
+		}
+		if len(okSrc) > 0 {
+			s := pick(t, "rep-src", okSrc)
+			if s == "" {
+				q.Src = ""
+			} else {
+				q.Src = "https://" + s + "/"
+			}
+		}
+		docOnly := false
+		for _, e := range m.Extra {
+			switch e {
+			case "elemhide", "generichide", "genericblock", "jsinject", "urlblock", "content", "extension", "document", "popup":
+				docOnly = true
+			}
+		}
+		switch {
+		case docOnly:
+			q.Typ = "document"
+		case len(m.TIncl) > 0:
+			q.Typ = pick(t, "rep-type", m.TIncl)
+		case inList(q.Typ, m.TExcl) || q.Typ == "":
+			for _, ty := range reqTypeNames {
+				if !inList(ty, m.TExcl) {
+					q.Typ = ty
+					break
+				}
+			}
+		}
+	}
+	// tags
+	var tags []string
+	for _, g := range q.Tags {
+		if !inList(g, m.GRestr) {
+			tags = append(tags, g)
+		}
+	}
+	if len(m.GPerm) > 0 {
+		tags = append(tags, pick(t, "rep-tag", m.GPerm))
+		sort.Strings(tags)
+		tags = uniqSorted(tags)
+	}
+	q.Tags = tags
+	// client
+	if refCliContains(m.CRestr, q.CName, "") {
+		q.CName = ""
+	}
+	if q.CIP != "" && refCliContains(m.CRestr, "", q.CIP) {
+		q.CIP = ""
+	}
+	if len(m.CPerm) > 0 && !refCliContains(m.CPerm, q.CName, q.CIP) {
+		c := pick(t, "rep-cli", m.CPerm)
+		switch c.Kind {
+		case "name":
+			q.CName = c.Val
+		case "ip":
+			q.CIP = c.Val
+		case "cidr":
+			q.CIP = netip.MustParsePrefix(c.Val).Masked().Addr().String()
+		}
+		if q.CIP != "" && refCliContains(m.CRestr, "", q.CIP) && c.Kind != "name" {
+			// cannot satisfy both with this address; leave it
+			_ = c
+		}
+	}
+	return q
+}
+
+// genQNear draws a request that satisfies the rule and then re-draws 0..2
+// field groups, so that each modifier is individually decisive.
+func genQNear(t *rapid.T, m NetModel) Q {
+	q := genQ(t, &m)
+	if chance(t, "unsteered", 5) {
+		return q
+	}
+	q = repairQ(t, q, m)
+	nbreak := rapid.IntRange(0, 2).Draw(t, "nbreak")
+	for i := 0; i < nbreak; i++ {
+		o := genQ(t, &m)
+		switch rapid.IntRange(0, 5).Draw(t, "break-field") {
+		case 0:
+			if o.Host == q.Host {
+				q.URL, q.Hostname = o.URL, o.Hostname
+			}
+		case 1:
+			if !q.Host && !o.Host {
+				q.Src = o.Src
+			}
+		case 2:
+			if !q.Host && !o.Host {
+				q.Typ = o.Typ
+			}
+		case 3:
+			if q.Host {
+				q.DNSType = pick(t, "break-dnstype", append([]string{""}, dnsNames...))
+			}
+		case 4:
+			q.CName, q.CIP = o.CName, o.CIP
+		case 5:
+			q.Tags = o.Tags
+		}
+	}
+	return q
 }
